@@ -155,6 +155,13 @@ func runC16(c *Check) {
 		first := false
 		for _, b := range R.Blocks {
 			for _, in := range b.Instrs {
+				// `visited := []string{node.Host()}`
+				if sl, ok := in.(*ssa.Slice); ok && !head.Dominates(b) && sl.Type().String() == "[]string" {
+					el := c.eff.variadic(sl)
+					if len(el) == 1 && p.IsCall(p.T(el[0]), "(*mysql.Node).Host") && p.T(el[0]).Args[0].Op == "param" {
+						first = true
+					}
+				}
 				if call, ok := in.(*ssa.Call); ok {
 					if bi, ok := call.Call.Value.(*ssa.Builtin); ok && bi.Name() == "append" && !head.Dominates(b) {
 						el := c.eff.variadic(call.Call.Args[1])
